@@ -90,6 +90,14 @@ def neighbours(spec):
         for m in ("x", "y", "a"):
             if m not in items:
                 out.append(("s", tuple(sorted(items + (m,), key=repr))))
+        # a member replaced by the value of another type Python calls equal
+        twins = {1: True, 0: False}
+        for i, m in enumerate(items):
+            for a, b in list(twins.items()) + [(v, k) for k, v in
+                                                twins.items()]:
+                if m == a and type(m) is type(a):
+                    out.append(("s", tuple(sorted(
+                        items[:i] + (b,) + items[i + 1:], key=repr))))
         return out
     if tag == "l":
         for i in range(len(items)):
